@@ -53,6 +53,10 @@ pub struct Case {
     /// narrower than the surface with (possibly) an empty clip stack - fill_rect then takes its maskless fast path
     #[serde(default)]
     pub layer_clip_popped: bool,
+    /// with `layer`: a second layer is pushed directly inside the first (same clip), and the draw happens in that one:
+    /// a layer nested in a layer whose origin is not the surface's
+    #[serde(default)]
+    pub layer_nested: bool,
 }
 
 fn shift_path(p: &PathSpec, dx: i32, dy: i32) -> PathSpec {
@@ -104,6 +108,9 @@ fn render(c: &Case, ox: i32, oy: i32) -> Vec<u32> {
         let r = c.layer.unwrap();
         dt.push_clip_rect(irect(r.0, r.1, r.2, r.3));
         dt.push_layer(1.0);
+        if c.layer_nested {
+            dt.push_layer(1.0);
+        }
         // previous values go into the layer: Src at full coverage writes the texels exactly
         let image = Image { width: bw, height: bh, data: &init };
         dt.draw_image_at(0.0, 0.0, &image, &DrawOptions { blend_mode: BlendMode::Src, alpha: 1.0, antialias: AntialiasMode::Gray });
@@ -194,6 +201,9 @@ fn render(c: &Case, ox: i32, oy: i32) -> Vec<u32> {
             _ => dt.pop_clip(),
         }
         dt.pop_layer();
+        if c.layer_nested {
+            dt.pop_layer();
+        }
     }
     let data = dt.get_data();
     let mut out = Vec::with_capacity((c.w * c.h) as usize);
@@ -417,6 +427,7 @@ pub fn check(c: &Case) -> CheckResult {
     o.class(c.src.kind());
     o.class_if(c.layer.is_some(), "inside-layer");
     o.class_if(c.layer.is_some() && c.layer_clip_popped && matches!(c.route, Route::Rect) && matches!(c.clip, ClipSpec::None), "fast-path-fill_rect-into-narrow-layer");
+    o.class_if(c.layer.is_some() && c.layer_nested, "inside-a-layer-nested-in-a-layer");
     o.class_if(c.w > 256 || c.h > 256, "surface-beyond-256");
     o.class_if(matches!(c.layer, Some(r) if r.0 > 0 || r.1 > 0), "inside-layer-with-nonzero-origin");
     Ok(o)
@@ -450,7 +461,8 @@ pub fn strategy(ctx: &Ctx) -> BoxedStrategy<Case> {
             let src = if matches!(route, Route::Clear) && !src.is_solid() { SrcSpec::Solid(0x80402010) } else { src };
             // clear() goes through the clip stack when a layer/clip is present: fine either way
             let layer_clip_popped = layer.is_some() && (alpha.to_bits() >> 5) % 3 == 0;
-            Case { w, h, init, src, alpha, mode, route, clip, shift, layer, layer_clip_popped }
+            let layer_nested = layer.is_some() && (w * 5 + h * 3 + mode as i32) % 3 == 0;
+            Case { w, h, init, src, alpha, mode, route, clip, shift, layer, layer_clip_popped, layer_nested }
         })
         .boxed()
 }
@@ -547,14 +559,14 @@ pub fn property(ctx: &Ctx) -> Property {
     let c = ctx.clone();
     Property {
         id: "C03",
-        rule: "part px: 1..8 x 1..8 surfaces (one in thirteen 257..300 x 1..2 or 1..2 x 257..300, one in fifty 1024..4096 x 1) where every pixel has its own premultiplied previous value; source solid/image/gradient under global alpha; coverage delivered by mask() bytes (each pixel its own byte), by AA or aliased fills of quarter-grid polygons (exact coverage from the 4x4 model), by fill_rect and clear (for solid sources one fill / fill_rect in four is described in user units 2^7 or 2^14 times smaller under the matching transform, exactly the same device geometry, so that the inverse transform has entries beyond 32768; clear under a translation, scale, quarter turn or singular transform in two thirds of its cases: it is not positioned by the transform); clip none / rect / quarter-grid path / path then rect / path, rect, then a second path (clip coverage = product of the two path coverages, rounded either way); 28 blend modes; in 30% of the cases the whole draw happens inside a layer pushed under an offset clip rectangle (layer origin != (0,0)). Oracle per pixel: exactly previous at weight 0, exactly blend(source, previous) at full weight, otherwise within 3/255 of the real-arithmetic coverage-weighted formula; source colour read from a Src render of the same source (solid sources checked against colour x alpha); same inputs translated by whole pixels must give bit-identical pixels. part sweep: exhaustive mode x coverage byte 0..255 x clip {none, full path, empty path} over a premultiplied boundary lattice of (source, previous) pairs. Non-trivial: case with >=1 partially weighted pixel, or a full-weight pixel under a mode other than SrcOver; distinct by hash of (size, source, alpha, mode, route, clip).",
+        rule: "part px: 1..8 x 1..8 surfaces (one in thirteen 257..300 x 1..2 or 1..2 x 257..300, one in fifty 1024..4096 x 1) where every pixel has its own premultiplied previous value; source solid/image/gradient under global alpha; coverage delivered by mask() bytes (each pixel its own byte), by AA or aliased fills of quarter-grid polygons (exact coverage from the 4x4 model), by fill_rect and clear (for solid sources one fill / fill_rect in four is described in user units 2^7 or 2^14 times smaller under the matching transform, exactly the same device geometry, so that the inverse transform has entries beyond 32768; clear under a translation, scale, quarter turn or singular transform in two thirds of its cases: it is not positioned by the transform); clip none / rect / quarter-grid path / path then rect / path, rect, then a second path (clip coverage = product of the two path coverages, rounded either way); 28 blend modes; in 30% of the cases the whole draw happens inside a layer pushed under an offset clip rectangle (layer origin != (0,0)), a third of those inside a second layer pushed directly inside the first. Oracle per pixel: exactly previous at weight 0, exactly blend(source, previous) at full weight, otherwise within 3/255 of the real-arithmetic coverage-weighted formula; source colour read from a Src render of the same source (solid sources checked against colour x alpha); same inputs translated by whole pixels must give bit-identical pixels. part sweep: exhaustive mode x coverage byte 0..255 x clip {none, full path, empty path} over a premultiplied boundary lattice of (source, previous) pairs. Non-trivial: case with >=1 partially weighted pixel, or a full-weight pixel under a mode other than SrcOver; distinct by hash of (size, source, alpha, mode, route, clip).",
         assumptions: vec![
             "blend(source, previous) is sw_composite::blend::<Mode>::blend, the formula library the property names",
             "between weight 0 and 1 the rounding scheme is not pinned: +-3/255 per channel",
             "AA coverage is known up to C01's 16k / 16k-1 alternatives; a pixel is accepted if any admissible coverage explains it",
         ],
         parts: vec![part("px", 160_000, 3_000_000, move || strategy(&c), check), enum_part("sweep", 28 * 256 * 3, 28 * 256 * 3, sweep_decode, check_sweep)],
-        min_class_fraction: vec![("px", "px:partial", 0.3), ("px", "non-srcover", 0.3), ("px", "clip:path", 0.15), ("px", "clip:path+rect+path", 0.03), ("px", "route:mask", 0.15), ("px", "px:w=1", 0.2), ("px", "inside-layer-with-nonzero-origin", 0.1)],
+        min_class_fraction: vec![("px", "px:partial", 0.3), ("px", "non-srcover", 0.3), ("px", "clip:path", 0.15), ("px", "clip:path+rect+path", 0.03), ("px", "route:mask", 0.15), ("px", "px:w=1", 0.2), ("px", "inside-layer-with-nonzero-origin", 0.1), ("px", "inside-a-layer-nested-in-a-layer", 0.04)],
         panic_is_violation: false,
     }
 }
